@@ -216,6 +216,8 @@ func c05Case(w *core.Worker, i int) {
 		return m
 	}
 	nextID := n + 100
+	defCtr := 0
+	noWrap := map[int]bool{}
 	names := []string{"t", "t", "t", "u", "tmp"}
 	nst := r.Range(3, 12)
 	for k := 0; k < nst; k++ {
@@ -487,10 +489,18 @@ func c05Case(w *core.Worker, i int) {
 			}
 			nc := fmt.Sprintf("n%d", k)
 			var def *string
+			counting := false
 			sql := fmt.Sprintf("ALTER TABLE %s ADD %s", tn, nc)
-			if r.Bool() {
+			switch r.Intn(3) {
+			case 0:
 				def = core.Sp("dflt")
 				sql += " DEFAULT 'dflt'"
+			case 1:
+				if !big {
+					// a default that is evaluated for every record (one worker: in table order) and has a side effect
+					counting = true
+					sql += " DEFAULT 's' || (@c05n := @c05n + 1)"
+				}
 			}
 			pos := len(t.Cols)
 			switch r.Intn(4) {
@@ -510,7 +520,15 @@ func c05Case(w *core.Worker, i int) {
 			}
 			t.Cols = append(t.Cols[:pos], append([]string{nc}, t.Cols[pos:]...)...)
 			for ri, row := range t.Rows {
+				if counting {
+					defCtr++
+					def = core.Sp("s" + strconv.Itoa(defCtr))
+				}
 				t.Rows[ri] = append(append(append([]*string{}, row[:pos]...), def), row[pos:]...)
+			}
+			if counting {
+				noWrap[len(steps)] = true
+				w.Count("defaults_with_a_side_effect", 1)
 			}
 			steps = append(steps, step{sql + ";", -1, true, nil})
 		default: // DROP / RENAME (never the id column)
@@ -581,6 +599,9 @@ func c05Case(w *core.Worker, i int) {
 	// some statements run inside a nested block (IF / WHILE / user function): the change must land in the table itself,
 	// not in something that disappears with the block
 	for k := range steps {
+		if noWrap[k] {
+			continue
+		}
 		switch r.Intn(10) {
 		case 0:
 			steps[k].sql = "IF 1 = 1 THEN " + steps[k].sql + " END IF;"
@@ -621,6 +642,7 @@ func c05Case(w *core.Worker, i int) {
 			w.Violation(sig, fmt.Sprintf("step %d %q [%d rows, cpu %d]: %s", k, sqls[k], n, cpu, what), c05Replay{Files: small(files), History: sqls, Step: k, CPU: cpu, Detail: what})
 		}
 		s.Exec("DECLARE tmp VIEW (id, c1);")
+		s.Exec("VAR @c05n := 0;")
 		ok := true
 		for k, st := range steps {
 			res := s.Exec(st.sql)
